@@ -2,6 +2,7 @@
 import json
 import os
 import re
+import time
 import vlib
 
 LEVEL = "proof"
@@ -42,6 +43,14 @@ def witness_files():
 
 def run(ctx):
     quick = ctx.tier == "quick"
+    timings = {}
+    t0 = time.time()
+
+    def lap(name):
+        nonlocal t0
+        timings[name] = round(time.time() - t0, 1)
+        t0 = time.time()
+
     proof = vlib.prove("C07", extra_targets=["theories/Extract/C07.vo"])
     if not quick:
         proof.update(vlib.coqchk("C07"))
@@ -49,6 +58,7 @@ def run(ctx):
             raise vlib.CheckFailure("coqchk failed: " + proof["coqchk_tail"])
     exe = vlib.build_model("C07", "extract/C07.v", "ocaml/c07_driver.ml")
     harness, hsecs = vlib.build_harness("c07")
+    lap("proof_and_builds_incl_lock_waits")
     known_text = {"F3": F3, "F10": F10, "F11": F11, "F12": F12, "F13": F13, "F14": F14}
     cov = ctx.coverage
     nviol = [0]
@@ -87,13 +97,14 @@ def run(ctx):
         if still and meta.get("finding") in known_text:
             ctx.known_finding(known_text[meta["finding"]])
     cov["finding_witnesses"] = wit
+    lap("witnesses")
 
     # ---- 2. generated CoreCUE programs x option profiles --------------------------------------
-    n = 2200 if quick else 40000
+    n = 1600 if quick else 40000
     d = os.path.join(ctx.work, "run")
     os.makedirs(d, exist_ok=True)
-    p = vlib.run([harness, "--mode", "run", "--seed", str(ctx.seed), "--n", str(n), "--out", d], timeout=3000, stderr=None, stdout=None) if False else \
-        vlib.run([harness, "--mode", "run", "--seed", str(ctx.seed), "--n", str(n), "--out", d], timeout=3000)
+    p = vlib.run([harness, "--mode", "run", "--seed", str(ctx.seed), "--n", str(n), "--out", d], timeout=3000)
+    lap("harness_programs")
     gen_stats = dict((m.group(1), int(m.group(2))) for m in re.finditer(r"stat (\S+) (\d+)", p.stdout or ""))
     cases = read_lines(os.path.join(d, "cases.txt"))
     impl = read_lines(os.path.join(d, "impl.txt"))
@@ -120,10 +131,12 @@ def run(ctx):
         payload = {"program": src[i].split("\n", 1)[1].split("--- printed\n")[0], "profile": prof,
                    "printed_text": src[i].split("--- printed\n")[1] if "--- printed\n" in src[i] else "",
                    "case": c, "impl": a, "model": m, "replay": "bin/check C07 --replay <this file>"}
-        if len(mf) != 4:
+        if len(mf) != 5:
             violation(dict(payload, kind="model-driver-failed"), no_input=True)
             continue
-        m_orig, m_printed, m_nf, nf_sx = mf
+        m_orig, m_printed, m_nf, nf_sx, m_impl = mf
+        if m_impl != "-":
+            bump("impl-layer-model-" + ("predicts-reevaluated-text" if m_impl == got else "differs-from-reevaluated-text") + ("-in-known-class" if "suspect" in flags else ""))
         pp = per_profile.setdefault(prof, {"cases": 0, "ok": 0, "known": 0})
         pp["cases"] += 1
         if c not in distinct:
@@ -147,8 +160,8 @@ def run(ctx):
         elif suspect:
             # known findings F10/F11: a closed node that receives a further conjunct
             pp["known"] += 1
-            confirmed = (m_printed == got and m_printed != "-")
-            bump("known-def-mode-class" + ("-confirmed-by-model" if confirmed else "-unconfirmed"))
+            confirmed = (m_printed == got and m_printed != "-") or m_impl == got
+            bump("known-def-mode-class" + ("-impl-equals-Impl-model" if m_impl == got else ("-confirmed-by-model-reading-of-the-text" if confirmed else "-unconfirmed")))
             printed = payload["printed_text"]
             if "_#def" in printed:
                 ctx.known_finding(F11)
@@ -209,6 +222,7 @@ def run(ctx):
                 violation({"kind": "cue-reads-the-models-normal-form-print-differently", "program": src[i].split("\n", 1)[1].split("--- printed\n")[0],
                            "profile": src[i].split("\n", 1)[0].split(" ")[1], "model_print_sexp": sx, "cue_value": o, "original_projected": want}, no_input=True)
 
+    lap("model_and_model_printer_read_by_cue")
     # ---- 4. bounds.go: exact agreement of the written tokens ------------------------------------
     nb = 30000 if quick else 400000
     db = os.path.join(ctx.work, "bounds")
@@ -223,7 +237,7 @@ def run(ctx):
     brew = 0
     for c, a, m in zip(bc, bi, bm):
         bdist.add(c)
-        if "uint" in a or "range:" in a or (a.startswith("int ") and not c.startswith("B int")):
+        if "uint" in a or "range:" in a:
             brew += 1
         if a != m:
             bump("bounds-DIFF")
@@ -231,6 +245,7 @@ def run(ctx):
                        "what": "export.Simplified.Value(&adt.Conjunction{...}) vs the model proved sound (range_rewrite_sound)"}, no_input=True)
     bump("bounds-cases", len(bc))
 
+    lap("bounds")
     # ---- 5. repository corpus (seed independent) ------------------------------------------------
     dc = os.path.join(ctx.work, "corpus")
     os.makedirs(dc, exist_ok=True)
@@ -268,7 +283,9 @@ def run(ctx):
                 txt = ""
             violation({"kind": "repository-corpus-file-no-longer-round-trips", "file": "cue/testdata/" + rel, "profile": prof, "result": r,
                        "expected": exp or "OK", "program": txt, "replay_kind": "file"})
+    lap("repository_corpus")
     cov.update({
+        "timings_s": timings,
         "obligations": proof["obligations"], "discharged": proof["discharged"],
         "checker_cmd": proof["checker_cmd"] + ("; coqchk -silent -o Verif.Properties.C07" if not quick else ""),
         "trusted_base": TRUSTED, "theorems": proof["theorems"], "axioms_reported": proof["axioms"],
